@@ -16,7 +16,7 @@ from typing import List, Optional, Set
 
 from .report import Ctx
 from .srcmodel import AnalysisError, call_leaf, calls_in, const_str, contains, dotted, get_kwarg, src, walk_local
-from .util import enclosing_trys, enclosing_withs, guard_chain, root_name, strip_not
+from .util import body_raises, enclosing_trys, enclosing_withs, guard_chain, root_name, strip_not
 
 NX = {"e"}
 
@@ -105,7 +105,7 @@ def run(ctx: Ctx) -> int:
     carm = _arm(ad, "callable_origin_types")
     in_carm = lambda n: any(contains(s_, n) for s_ in carm.body)  # noqa: E731
     ctest = [n for n in walk_local(ad) if in_carm(n) and isinstance(n, ast.If) and "callable_instances(val_class)" in ast.unparse(n.test) and "partial_classes" in ast.unparse(n.test)]
-    ok = len(ctest) == 1 and isinstance(ctest[0].body[0], ast.Raise)
+    ok = len(ctest) == 1 and body_raises(ctest[0].body, ctx.noreturn) is not None
     cact = [c for c in calls_in(ad) if in_carm(c) and call_leaf(c) == "adapt_class_type" and not (len(c.args) > 1 and isinstance(c.args[1], ast.Constant) and c.args[1].value is True)]
     if ok:
         ok = bool(cact) and g.dominates(g.node_ids_of(ctest[0]), g.cn(cact))
@@ -118,7 +118,7 @@ def run(ctx: Ctx) -> int:
     # Type arm
     tarm = _arm(ad, "typehint in {Type, type}")
     tt = [n for n in walk_local(ad) if any(contains(s_, n) for s_ in tarm.body) and isinstance(n, ast.If) and "is_subclass(val, subtypehints[0])" in ast.unparse(n.test)]
-    ok = len(tt) == 1 and isinstance(tt[0].body[0], ast.Expr) and ctx.noreturn(tt[0].body[0].value)
+    ok = len(tt) == 1 and body_raises(tt[0].body, ctx.noreturn) is not None
     ctx.oblige("C14.a", ok, tt[0] if tt else tarm, "Type[...] arm rejects import paths that are not subclasses of the declared class" if ok else "Type[...] arm lost its subclass test", fn=ad)
 
     # ---------------- C14.b one class throughout -------------------------------
